@@ -25,7 +25,7 @@ VStep(r) ==
                LET g == r.gm[j]                       \* <<key, slot, kind, var>>
                    occ == Occupant(post, SlotOf, g[1], g[2]) IN
                IF occ # {} THEN ~(g[3] = "exact" /\ g[4] \in occ)
-               ELSE IF post[g[1]] # <<>> THEN ~(g[3] = "interp" /\ g[4] \in SeqToSet(post[g[1]]))
+               ELSE IF post[g[1]] # <<>> THEN ~((g[3] = "interp" /\ g[4] \in SeqToSet(post[g[1]])) \/ g[3] = "undefined-shift")
                ELSE FALSE
           THEN "get-metric"
      ELSE "ok"
